@@ -105,7 +105,7 @@ func genC16Prog(id int, rng *rand.Rand) *Prog {
 		}
 		files["main/"+n] = hdr + bodies[i].String()
 	}
-	if id%4 == 2 {
+	if nfiles >= 2 && id%2 == 0 {
 		// a _test.go file that sorts before the other files is ignored and does not disturb their order
 		files["main/a0_test.go"] = "package main\n\nvar testOnly = note(99)\n"
 	}
@@ -130,7 +130,7 @@ func genC16Prog(id int, rng *rand.Rand) *Prog {
 func checkC16(tier string, seed int64) int {
 	c := newCtx("C16", tier, seed, "model_checking", nil)
 	defer c.Close()
-	nodes, nprogs := 5, 60
+	nodes, nprogs := 5, 120
 	if tier == "thorough" {
 		nodes, nprogs = 6, 1200
 	}
